@@ -2,6 +2,7 @@ package wgossip
 
 import (
 	"context"
+	"regexp"
 	"encoding/binary"
 	"fmt"
 	"os"
@@ -1138,6 +1139,8 @@ func runGossip(s *sim.Sim, o gopts) {
 	s.State(n, canonValue(w.nodes[alive[0]].visible(ringKey), false), canonValue(w.nodes[alive[0]].visible(partKey), false))
 }
 
+var entryRE = regexp.MustCompile(`[^\s{}"]+\{[^{}]*\}`)
+
 func sortedPtomb(m map[string]int64) []string {
 	ks := make([]string, 0, len(m))
 	for k := range m {
@@ -1160,19 +1163,11 @@ func sortedKeys(m map[string]ring.InstanceDesc) []string {
 // ago than the tombstone retention (their tombstone may be discarded at any merge, after which stale
 // copies can come back: outside the statements).
 func (w *gworld) onlyExpiredRemovalsDiffer(before, after string) bool {
+	// storeCanon: `"key": deleted=false id{...} id{...} || "key2": ...`; entries are `id{...}` groups
 	set := func(c string) map[string]bool {
 		m := map[string]bool{}
-		for _, part := range strings.Split(strings.NewReplacer(" || ", "} ", "deleted=false ", "", "deleted=true ", "").Replace(c), "} ") {
-			part = strings.TrimSpace(part)
-			// the first entry of a key carries the key's label ("ring": ...)
-			if strings.HasPrefix(part, "\"") {
-				if i := strings.Index(part, "\": "); i >= 0 {
-					part = strings.TrimSpace(part[i+3:])
-				}
-			}
-			if part != "" {
-				m[strings.TrimSuffix(part, "}")] = true
-			}
+		for _, e := range entryRE.FindAllString(c, -1) {
+			m[strings.TrimSuffix(e, "}")] = true
 		}
 		return m
 	}
